@@ -58,6 +58,7 @@ type Op struct {
 	Consume  int      `json:"consume,omitempty"` // -1 deep (default via normalise), 0 drop, k prefix
 	Store    int      `json:"store,omitempty"`   // handle slot + 1 (0 = none)
 	Observe  bool     `json:"observe,omitempty"` // pure observation op (C09)
+	Ref      int      `json:"ref,omitempty"`     // force: index of the eval op (same client) whose stored result is consumed now
 }
 
 func (o *Op) text() string {
@@ -348,6 +349,24 @@ func (r *runner) doOp(op *Op, handles []value.Value) (out Outcome) {
 			lim = op.Consume
 		}
 		if err := canon(&b, v, st, lim, 0); err != nil {
+			out.Err = err.Error()
+			break
+		}
+		out.Ok = true
+		out.Val = b.String()
+	case "force":
+		// late consumption of a result that an earlier evaluation left unconsumed or half consumed
+		if len(op.Args) != 1 || op.Args[0].K != "handle" {
+			out.Skipped = true
+			break
+		}
+		v := buildArg(op.Args[0], handles)
+		if v == nil {
+			out.Skipped = true
+			break
+		}
+		var b strings.Builder
+		if err := canon(&b, v, funcGen.NewEmptyStack[value.Value](), -1, 0); err != nil {
 			out.Err = err.Error()
 			break
 		}
